@@ -52,7 +52,7 @@ type Node struct {
 type Graph struct {
 	Nodes []Node `json:"nodes"`
 	Dag   bool   `json:"dag,omitempty"`
-	Wf    bool   `json:"wf,omitempty"` // built as a compose.Workflow (all-predecessor, eager) instead of a compose.Graph
+	Wf    bool   `json:"wf,omitempty"`    // built as a compose.Workflow (all-predecessor, eager) instead of a compose.Graph
 	Chain bool   `json:"chain,omitempty"` // built as a compose.Chain (the graph is one chain; node keys through WithNodeKey)
 	// Loop > 0: the graph is one chain first -> ... -> last (pregel mode) and runs 1+Loop times
 	// in a run: after last a branch leads to the Back relay and from there to first again, Loop
@@ -76,9 +76,9 @@ type BOp struct {
 type Call struct {
 	Script []BOp `json:"script"`
 	Pass   []int `json:"pass"`
-	Stream bool  `json:"stream,omitempty"`   // the output is taken as a stream (Stream / Transform)
-	InStr  bool  `json:"instr,omitempty"`    // the input is given as a stream (Collect / Transform)
-	CpPos  int   `json:"cppos,omitempty"` // resume cases: position of WithCheckPointID among the passed options
+	Stream bool  `json:"stream,omitempty"` // the output is taken as a stream (Stream / Transform)
+	InStr  bool  `json:"instr,omitempty"`  // the input is given as a stream (Collect / Transform)
+	CpPos  int   `json:"cppos,omitempty"`  // resume cases: position of WithCheckPointID among the passed options
 	// Host > 0 (single calls only): the call is not issued from a fresh context but by user code
 	// inside a lambda node of another running graph, with that lambda's context (which carries the
 	// host's node path and callback manager): 1 = the host is a compose.Graph with the one lambda,
@@ -347,10 +347,12 @@ func toNodePaths(paths [][]int) []*compose.NodePath {
 	out := make([]*compose.NodePath, len(paths))
 	for i, p := range paths {
 		ks := make([]string, len(p))
+		sum := len(p)
 		for j, k := range p {
 			ks[j] = keyStr(k)
+			sum += k
 		}
-		out[i] = compose.NewNodePath(ks...)
+		out[i] = compose.NewNodePath(spareKeys(ks, sum)...)
 	}
 	return out
 }
@@ -377,9 +379,13 @@ func buildOpts(c Call, shared []compose.Option, sharedScript []BOp) ([]compose.O
 		reuse = false
 		switch b.Op {
 		case "items":
-			env = append(env, mkOption(b.Items, b.Lambda))
+			env = append(env, mkOptionSpare(b.Items, b.Lambda, true))
 		case "handlers":
-			env = append(env, compose.WithCallbacks(mkHandlers(b.Hs)...))
+			key := len(b.Hs)
+			for _, h := range b.Hs {
+				key += h
+			}
+			env = append(env, compose.WithCallbacks(spareHs(mkHandlers(b.Hs), key)...))
 		case "inert":
 			// an Option that carries neither option values nor handlers (here: a state modifier
 			// that does nothing); designated, its paths are still validated
@@ -401,13 +407,18 @@ func buildOpts(c Call, shared []compose.Option, sharedScript []BOp) ([]compose.O
 				}
 				env = append(env, env[b.Parent].DesignateNode(ks...))
 			} else {
-				env = append(env, env[b.Parent].DesignateNodeWithPath(toNodePaths(b.Paths)...))
+				key := j
+				for _, p := range b.Paths {
+					key += len(p)
+				}
+				env = append(env, env[b.Parent].DesignateNodeWithPath(sparePaths(toNodePaths(b.Paths), key)...))
 			}
 		default:
 			return nil, nil, fmt.Errorf("harness: bad op %q", b.Op)
 		}
 	}
-	out := make([]compose.Option, 0, len(c.Pass))
+	// every second list has room for two more options behind its length (zero Options: any write shows)
+	out := make([]compose.Option, 0, len(c.Pass)+2*(len(c.Script)%2))
 	for _, j := range c.Pass {
 		if j < 0 || j >= len(env) {
 			return nil, nil, fmt.Errorf("harness: bad pass index")
@@ -421,6 +432,7 @@ func buildOpts(c Call, shared []compose.Option, sharedScript []BOp) ([]compose.O
 // goroutine that owns the case).
 func buildAllOpts(c *Case) ([][]compose.Option, error) {
 	opts := make([][]compose.Option, len(c.Calls))
+	spareRegs = nil
 	var env0 []compose.Option
 	for i, cl := range c.Calls {
 		var shared []compose.Option
@@ -624,9 +636,11 @@ func runCase(c *Case) (obs []CallObs, fatal string) {
 		var cerr error
 		var pan any
 		// the list the caller passes: the call must leave it as it is (the caller may pass it again)
-		saved := append([]compose.Option(nil), opts[i]...)
+		// (round 6: up to its capacity - the caller may pass l[:n]... of a longer list, and a call that appends to the
+		// list it was handed writes into the options of the caller's next call)
+		saved := append([]compose.Option(nil), opts[i][:cap(opts[i])]...)
 		defer func() {
-			if d := optionsChanged(saved, opts[i]); d != "" && obs[i].Class != "hang" {
+			if d := optionsChanged(saved, opts[i][:cap(opts[i])]); d != "" && obs[i].Class != "hang" {
 				obs[i].ArgsChanged = d
 			}
 		}()
@@ -667,6 +681,17 @@ func runCase(c *Case) (obs []CallObs, fatal string) {
 		}
 		wg.Wait()
 	}
+	if d := spareWritten(); d != "" {
+		// not attributable to one of the (concurrent) calls: reported with the last one that did not hang
+		for i := len(obs) - 1; i >= 0; i-- {
+			if obs[i].Class != "hang" && obs[i].Class != "" {
+				if obs[i].ArgsChanged == "" {
+					obs[i].ArgsChanged = d
+				}
+				break
+			}
+		}
+	}
 	return obs, ""
 }
 
@@ -677,6 +702,9 @@ func optionsChanged(before, now []compose.Option) string {
 		return fmt.Sprintf("length %d -> %d", len(before), len(now))
 	}
 	for k := range before {
+		if reflect.ValueOf(before[k]).IsZero() && !reflect.ValueOf(now[k]).IsZero() {
+			return fmt.Sprintf("element %d (behind the length of the list the caller passed) was written", k)
+		}
 		a, b := reflect.ValueOf(before[k]), reflect.ValueOf(now[k])
 		for f := 0; f < a.NumField(); f++ {
 			x, y := a.Field(f), b.Field(f)
